@@ -146,6 +146,30 @@ pub fn copy_main(args: &[String]) {
             }
             println!("CLOSED");
         }
+        "chanlate" => {
+            // a client that needs no real-time updates: call copy(), let it finish, THEN read the receiver until it closes
+            // (drivers/mod.rs: "copy() itself will block until all work is complete, so should be run in a thread if
+            // real-time updates are required")
+            let updater = ChannelUpdater::new(&config);
+            let rx = updater.rx_channel();
+            let stats: Arc<dyn StatusUpdater> = Arc::new(updater);
+            let r = drv.copy(sources, &dest, stats);
+            log9("RETURNED\n");
+            match r {
+                Ok(()) => println!("RET ok"),
+                Err(e) => println!("RET err {}", e.to_string().replace('\n', " ")),
+            }
+            let (mut nsize, mut size_sum, mut copied, mut nerr) = (0u64, 0u64, 0u64, 0u64);
+            for u in rx {
+                match u {
+                    StatusUpdate::Size(n) => { nsize += 1; size_sum += n; }
+                    StatusUpdate::Copied(n) => copied += n,
+                    StatusUpdate::Error(_) => nerr += 1,
+                }
+            }
+            println!("SUMMARY sizes {} size_sum {} copied {} errors {}", nsize, size_sum, copied, nerr);
+            println!("CLOSED");
+        }
         other => panic!("unknown updater {}", other),
     }
 }
